@@ -1,3 +1,5 @@
+import KmipGen.CodecSrc
+import KmipModel.ExpectCodec
 import KmipGen.SyncTable
 /-
   C02, generated obligation (re-checked against /repo's current source on every run):
@@ -10,5 +12,20 @@ def packageLevelWrites : List (String × String × String × Bool × Bool) :=
   KmipGen.accessTable.filter (fun r => r.2.1 == "pkg" && r.2.2.2.1)
 
 theorem GenC02_no_package_state : packageLevelWrites = [] := by decide
+
+end Kmip
+
+/-
+  Codec source tie (re-checked against /repo's current source on every run): the normalised source of every function of
+  the groups below, as kvscan reads it from /repo now, is the text the model was validated against (KmipModel/ExpectCodec.lean;
+  readable form in KmipModel/ExpectCodecSrc.txt). See harness/cmd/kvscan/srcdigest.go for the normalisation.
+-/
+namespace Kmip
+
+/-- encoder (encode.go, encode_core.go) -/
+theorem GenC02_codec_src_enc : KmipGen.codecSrc_enc = ExpectCodec.codecSrc_enc := by decide
+
+/-- struct descriptors (fields.go, types.go) -/
+theorem GenC02_codec_src_desc : KmipGen.codecSrc_desc = ExpectCodec.codecSrc_desc := by decide
 
 end Kmip
